@@ -257,7 +257,7 @@ mod verif_l2_update {
     //@region TC1-4 handler, all 112-bit frames x every (type code, category) x every row: callsign = decoded identification, category = (TC, CA); nothing else
     #[kani::proof]
     #[kani::unwind(34)]
-    #[kani::stub(crate::decoder::ais, ais_rec)]
+    #[kani::stub(crate::decoder::adsb::ais::ais, ais_rec)]
     fn l2_update_ext_tc1_4() {
         let m = any_frame28();
         let tc: u32 = kani::any();
